@@ -45,17 +45,17 @@ type Rec struct {
 
 // Batch is a v2 record batch as stored.
 type Batch struct {
-	First         int64
-	LastDelta     int32
-	FirstTs       int64 // ms, -1 = none
-	MaxTs         int64
-	LogAppend     bool
-	PID           int64
-	Txn, Control  bool
-	CtrlType      int // 0 abort, 1 commit, 2 unknown (control batches only)
-	Recs          []Rec
-	Codec         sarama.CompressionCodec
-	Aborted       bool // generator's ground truth: transactional data batch of an aborted transaction
+	First        int64
+	LastDelta    int32
+	FirstTs      int64 // ms, -1 = none
+	MaxTs        int64
+	LogAppend    bool
+	PID          int64
+	Txn, Control bool
+	CtrlType     int // 0 abort, 1 commit, 2 unknown (control batches only)
+	Recs         []Rec
+	Codec        sarama.CompressionCodec
+	Aborted      bool // generator's ground truth: transactional data batch of an aborted transaction
 }
 
 type LMsg struct {
@@ -84,13 +84,13 @@ type Log []Unit
 
 // Ref is one application-visible record as the generator knows it (independent of the model).
 type Ref struct {
-	Offset    int64
-	Key, Val  []byte
-	Hdrs      []Hdr
-	Ts        int64 // model representation
-	BlockTs   int64
-	Control   bool
-	Aborted   bool // only meaningful for transactional data
+	Offset   int64
+	Key, Val []byte
+	Hdrs     []Hdr
+	Ts       int64 // model representation
+	BlockTs  int64
+	Control  bool
+	Aborted  bool // only meaningful for transactional data
 }
 
 func (u Unit) Hi() int64 {
